@@ -786,6 +786,14 @@ fn int_to_float(c: &IntCase, ctx: &Ctx) -> Out {
     }
     out.label(range_label(&x, F64));
     let i = c.v.ibig();
+    // IBig::as_ubig: a view of the magnitude, offered exactly for the non-negative values
+    match catch(|| i.as_ubig().map(|u| u2n(u))) {
+        Err(m) => out.fail(format!("IBig::as_ubig panicked: {}", normalise(&m))),
+        Ok(got) => {
+            let want = if c.v.neg { None } else { Some(v.magnitude().clone()) };
+            out.check(got == want, || format!("IBig::as_ubig({v}) = {got:?}, want {want:?}"));
+        }
+    }
     judge_int(&mut out, ctx, "IBig::to_f32", c, catch(|| obs32(i.to_f32())), &x);
     judge_int(&mut out, ctx, "IBig::to_f64", c, catch(|| obs64(i.to_f64())), &x);
     let small32 = v.magnitude() <= &(BigUint::one() << 24usize);
@@ -1441,7 +1449,8 @@ fn to_float_case(base: u64) -> impl Strategy<Value = ToFloatCase> {
             _ => rand_big(&mut r, 140) % &d,
         };
         let j = j % &d;
-        let mut num = m * &d + j;
+        // zero has its own branch in Repr::to_float (returns 0 at the requested precision)
+        let mut num = if kind == 0 && seed % 16 == 0 { BigUint::zero() } else { m * &d + j };
         let mut den = d;
         if e >= 0 {
             num *= pow_big(base, e as u64);
@@ -1949,6 +1958,27 @@ fn lossless_big<R: ModeTag, const B: Word>(c: &FlCase, ctx: &Ctx) -> Out {
     rbig_to_ubig(&mut out, ctx, "UBig::try_from(Relaxed)", &xs, catch(|| UBig::try_from(l1.clone())), xu.as_ref(), &x);
     relaxed_unreduced(&mut out, ctx, "IBig::try_from(Relaxed 3n/3d)", &xs, catch(|| IBig::try_from(l.clone())), xi.as_ref());
     rat_to_prims!(out, r, l1, xs, xi; u8, u16, u32, u64, u128, usize, i8, i16, i32, i64, i128, isize);
+    // a Relaxed zero that kept a denominator (k·b/b − k = 0/b: the integer operators of Relaxed do
+    // not reduce): still the integer 0 for every integer target
+    {
+        let b = &d * &k + BigUint::from(2u8);
+        let m = BigInt::from(5 + (c.extra as i64));
+        match catch(|| Relaxed::from_parts(n2i(&(&m * BigInt::from(b.clone()))), n2u(&b)) - n2i(&m)) {
+            Err(e) => out.fail(format!("Relaxed(k·b/b) − k panicked: {}", normalise(&e))),
+            Ok(z) => {
+                let zs = format!("Relaxed {}/{}", i2n(z.numerator()), u2n(z.denominator()));
+                if !u2n(z.denominator()).is_one() {
+                    out.label("Relaxed zero stored as 0/b");
+                }
+                let zero = BigInt::zero();
+                expect_big(&mut out, "IBig::try_from(Relaxed 0/b)", &zs, catch(|| IBig::try_from(z.clone())), Some(&zero), |g| i2n(g));
+                expect_big(&mut out, "UBig::try_from(Relaxed 0/b)", &zs, catch(|| UBig::try_from(z.clone())), Some(&zero), |g| BigInt::from(u2n(g)));
+                expect_conv(&mut out, "u8::try_from(Relaxed 0/b)", &zs, catch(|| u8::try_from(z.clone())), Some(0u8));
+                expect_conv(&mut out, "i64::try_from(Relaxed 0/b)", &zs, catch(|| i64::try_from(z.clone())), Some(0i64));
+                expect_conv(&mut out, "u128::try_from(Relaxed 0/b)", &zs, catch(|| u128::try_from(z.clone())), Some(0u128));
+            }
+        }
+    }
     let stored = (x.numer().clone(), x.denom().magnitude().clone());
     for (what, got) in [("FBig::from(RBig)", catch(|| exact_fbig(&FBig::<R, B>::from(r.clone())))), ("FBig::from(Relaxed)", catch(|| exact_fbig(&FBig::<R, B>::from(l1.clone()))))] {
         match got {
